@@ -121,3 +121,175 @@ pub fn write_txn_cid(txn: &crate::server::QueryServerWriteTransaction<'_>) -> (D
     let cid = txn.get_txn_cid();
     (cid.ts, cid.s_uuid)
 }
+
+/// The internal (system) identity, for requests a harness issues on behalf of the server.
+pub fn identity_internal() -> Identity {
+    Identity::from_internal()
+}
+
+/// Revive one recycled entry as the internal identity.
+pub fn internal_revive_uuid(
+    txn: &mut crate::server::QueryServerWriteTransaction<'_>,
+    uuid: Uuid,
+) -> Result<(), OperationError> {
+    let filter = filter_all!(f_eq(Attribute::Uuid, PartialValue::Uuid(uuid)));
+    let re = crate::event::ReviveRecycledEvent::from_parts(Identity::from_internal(), &filter, txn)?;
+    txn.revive_recycled(&re)
+}
+
+/// The replication update vector of this transaction as (min, max) change times per server.
+pub fn ruv_ranges<'a, T: QueryServerTransaction<'a>>(
+    txn: &mut T,
+) -> Result<std::collections::BTreeMap<Uuid, (Duration, Duration)>, OperationError> {
+    use crate::be::BackendTransaction;
+    use crate::repl::ruv::ReplicationUpdateVectorTransaction;
+    txn.get_be_txn()
+        .get_ruv()
+        .current_ruv_range()
+        .map(|m| m.into_iter().map(|(k, v)| (k, (v.ts_min, v.ts_max))).collect())
+}
+
+/// Plain mirror of the supplier's range comparison result.
+#[derive(Debug, Clone, PartialEq, Eq)]
+pub enum RangeDiff {
+    Ok(std::collections::BTreeMap<Uuid, (Duration, Duration)>),
+    Refresh,
+    Unwilling,
+    Critical,
+    NoRuvOverlap,
+}
+
+pub fn range_diff(
+    consumer: &std::collections::BTreeMap<Uuid, (Duration, Duration)>,
+    supplier: &std::collections::BTreeMap<Uuid, (Duration, Duration)>,
+) -> RangeDiff {
+    use crate::repl::proto::ReplCidRange;
+    use crate::repl::ruv::{RangeDiffStatus, ReplicationUpdateVector};
+    let conv = |m: &std::collections::BTreeMap<Uuid, (Duration, Duration)>| {
+        m.iter()
+            .map(|(k, (a, b))| {
+                (
+                    *k,
+                    ReplCidRange {
+                        ts_min: *a,
+                        ts_max: *b,
+                    },
+                )
+            })
+            .collect::<std::collections::BTreeMap<_, _>>()
+    };
+    match ReplicationUpdateVector::range_diff(&conv(consumer), &conv(supplier)) {
+        RangeDiffStatus::Ok(m) => RangeDiff::Ok(
+            m.into_iter()
+                .map(|(k, v)| (k, (v.ts_min, v.ts_max)))
+                .collect(),
+        ),
+        RangeDiffStatus::Refresh { .. } => RangeDiff::Refresh,
+        RangeDiffStatus::Unwilling { .. } => RangeDiff::Unwilling,
+        RangeDiffStatus::Critical { .. } => RangeDiff::Critical,
+        RangeDiffStatus::NoRUVOverlap => RangeDiff::NoRuvOverlap,
+    }
+}
+
+/// Raw content of every index table and of the name lookup tables, as the storage layer
+/// (through its caches) reports them inside this transaction.
+pub struct IndexDump {
+    /// index table name → (key → entry ids)
+    pub indexes: std::collections::BTreeMap<String, std::collections::BTreeMap<String, Vec<u64>>>,
+    /// entry id → uuid, for every stored entry
+    pub id2uuid: std::collections::BTreeMap<u64, Uuid>,
+}
+
+pub fn index_dump<'a, T: QueryServerTransaction<'a>>(txn: &mut T) -> Result<IndexDump, OperationError> {
+    use crate::be::BackendTransaction;
+    use crate::be::VerifIdlArcSqliteTransaction as _;
+    let be = txn.get_be_txn();
+    let mut indexes = std::collections::BTreeMap::new();
+    let names = be.get_idlayer().list_idxs()?;
+    for n in names {
+        // The lookup tables (idx_name2uuid, …) share the name prefix but not the layout.
+        if !(n.starts_with("idx_eq_")
+            || n.starts_with("idx_pres_")
+            || n.starts_with("idx_sub_")
+            || n.starts_with("idx_ord_"))
+        {
+            continue;
+        }
+        let content = be.get_idlayer().list_index_content(&n)?;
+        let m = content
+            .into_iter()
+            .map(|(k, idl)| (k, idl.into_iter().collect::<Vec<u64>>()))
+            .collect();
+        indexes.insert(n, m);
+    }
+    let mut id2uuid = std::collections::BTreeMap::new();
+    let all = be.get_idlayer().get_identry(&crate::be::IdList::AllIds)?;
+    for e in all {
+        id2uuid.insert(e.get_id(), e.get_uuid());
+    }
+    Ok(IndexDump { indexes, id2uuid })
+}
+
+/// Lookup-table probes, straight from the storage layer.
+pub fn lookup_name2uuid<'a, T: QueryServerTransaction<'a>>(txn: &mut T, name: &str) -> Result<Option<Uuid>, OperationError> {
+    use crate::be::BackendTransaction;
+    use crate::be::VerifIdlArcSqliteTransaction as _;
+    txn.get_be_txn().get_idlayer().name2uuid(name)
+}
+pub fn lookup_externalid2uuid<'a, T: QueryServerTransaction<'a>>(txn: &mut T, name: &str) -> Result<Option<Uuid>, OperationError> {
+    use crate::be::BackendTransaction;
+    use crate::be::VerifIdlArcSqliteTransaction as _;
+    txn.get_be_txn().get_idlayer().externalid2uuid(name)
+}
+pub fn lookup_uuid2spn<'a, T: QueryServerTransaction<'a>>(txn: &mut T, uuid: Uuid) -> Result<Option<Value>, OperationError> {
+    use crate::be::BackendTransaction;
+    use crate::be::VerifIdlArcSqliteTransaction as _;
+    txn.get_be_txn().get_idlayer().uuid2spn(uuid)
+}
+pub fn lookup_uuid2rdn<'a, T: QueryServerTransaction<'a>>(txn: &mut T, uuid: Uuid) -> Result<Option<String>, OperationError> {
+    use crate::be::BackendTransaction;
+    use crate::be::VerifIdlArcSqliteTransaction as _;
+    txn.get_be_txn().get_idlayer().uuid2rdn(uuid)
+}
+
+/// Restrict the set of indexes the query planner may use inside this write transaction to those
+/// whose (attribute, index type) the predicate keeps. The index tables themselves are untouched;
+/// the transaction is expected to be abandoned afterwards.
+pub fn mask_idxmeta(
+    txn: &mut crate::server::QueryServerWriteTransaction<'_>,
+    keep: &dyn Fn(&Attribute, &IndexType) -> bool,
+) -> Result<usize, OperationError> {
+    let keys: Vec<crate::be::IdxKey> = txn
+        .get_schema()
+        .reload_idxmeta()
+        .into_iter()
+        .filter(|k| keep(&k.attr, &k.itype))
+        .collect();
+    let n = keys.len();
+    txn.get_be_txn().update_idxmeta(keys)?;
+    Ok(n)
+}
+
+/// The credential soft-lock state machine.
+pub struct SoftLock(crate::credential::softlock::CredSoftLock);
+
+impl SoftLock {
+    pub fn new(policy: crate::credential::softlock::CredSoftLockPolicy) -> Self {
+        SoftLock(crate::credential::softlock::CredSoftLock::new(policy))
+    }
+    pub fn apply_time_step(&mut self, ct: Duration, expire_at: Option<Duration>) {
+        self.0.apply_time_step(ct, expire_at)
+    }
+    pub fn is_valid(&self) -> bool {
+        self.0.is_valid()
+    }
+    pub fn record_failure(&mut self, ct: Duration) {
+        self.0.record_failure(ct)
+    }
+}
+
+/// The changelog trim point this read transaction uses (newest change time minus the
+/// changelog window).
+pub fn read_txn_trim_ts(txn: &crate::server::QueryServerReadTransaction<'_>) -> Duration {
+    txn.trim_cid().ts
+}
